@@ -37,7 +37,7 @@ def cmp1(cfg):
                 if bad is not None:
                     res.find(f, e.get('loc'), 'byte-wise comparison of the object representation of `%s` (contains a pointer): the result depends on where the caller\'s buffers live, not on the key bytes' % sh(bad.get('st', '?')),
                              key='addr-of-pointer-carrying-object', config=cfg.name)
-    res.floor('byte-comparator call sites', 4)
+    res.floor('byte-comparator call sites', 2)
     return res
 
 
@@ -174,4 +174,55 @@ def iter1(cfg):
                 res.find(f, loc, 'get_child() takes its index from somewhere else although `%s = %s(...)` (%s) on the same node just returned the sibling to visit: the traversal descends into the child it came from, not its sibling' % (names.get(V, '?'), fam, fileline(dl)),
                          key='stale-index-after-%s' % fam, config=cfg.name)
     res.floor('get_child sites in iterator functions', 16)
+    return res
+
+
+def cmp3(cfg):
+    """CMP-3: the three-way key comparisons are byte-wise"""
+    import re
+    res = RuleResult('CMP-3', 'every three-way comparison of keys (basic_art_key::cmp, basic_leaf::cmp, iterator::cmp of db and olc_db) obtains its result from a byte-wise comparator (detail::compare / memcmp over the binary-comparable key bytes) or by delegating to another such cmp - never from relational operators on key words: the internal image of an integer key is byte-swapped, so comparing it as a number orders keys differently from the tree')
+    CLS = re.compile(r'^unodb::(detail::basic_art_key<|detail::basic_leaf<|db<.*>::iterator$|olc_db<.*>::iterator$)')
+    for f in cfg.functions:
+        if not f.blocks or f.short != 'cmp' or not CLS.match(f.cls):
+            continue
+        res.count('three-way comparison functions')
+        res.functions.add(f.sig)
+        inits = {}
+        for b, i, e in f.elements():
+            if e.get('k') == 'decl':
+                for v in e['vars']:
+                    if 'init' in v:
+                        inits[v['did']] = v['init']
+        bad = None
+        nret = 0
+        for b, i, e in f.elements():
+            if e.get('k') != 'return' or e.get('e') is None:
+                continue
+            nret += 1
+            srcs = []
+            rel = []
+            seen = set()
+
+            def v(x):
+                k = x.get('k')
+                if k == 'call' and (is_byte_compare(f, x) or x.get('name') in ('cmp', 'compare')):
+                    srcs.append(x)
+                elif k == 'binop' and x.get('op') in ('<', '>', '<=', '>=', '==', '!=', '<=>'):
+                    rel.append(x)
+                elif k == 'call' and x.get('ck') == 'op' and x.get('op') in ('<', '>', '<=', '>=', '==', '!=', '<=>'):
+                    rel.append(x)
+                elif k == 'ref' and x.get('vk') == 'local' and x.get('did') in inits and x['did'] not in seen:
+                    seen.add(x['did'])
+                    f.walk(inits[x['did']], v)
+            f.walk(e['e'], v)
+            if rel or not srcs:
+                bad = bad or (e, rel)
+        if nret == 0:
+            res.incompl('CMP-3: %s has no return value' % sh(f.sig)[:80])
+            continue
+        ok = bad is None
+        res.ob(ok, {'rule': 'CMP-3', 'function': sh(f.sig)[:120], 'site': fileline(f.loc), 'verdict': 'byte-wise' if ok else 'VIOLATION'})
+        if not ok:
+            res.find(f, bad[0].get('loc'), '%s::cmp computes its result %s instead of taking it from the byte-wise comparator: for integer keys the stored image is byte-swapped, so the sign differs from the byte order whenever the keys differ before their last byte - seek lands on the wrong side of a leaf and scans start too early or too late' % (sh(f.cls)[:50], 'with relational operators on the key representation' if bad[1] else 'from something else than a key comparator'), key='CMP-3:%s' % re.sub(r'<.*', '', f.cls).split('::')[-1], config=cfg.name)
+    res.floor('three-way comparison functions', 8)
     return res
